@@ -112,7 +112,7 @@ def evaluate(ctx, cases):
         t = tokens(c, r2)
         toks_all.append(t)
         eff.append((n2, L2, r2))
-        mlines.append(xc.model_line(n2, L2, None, False, c["r"], c["cmd"], t, False, [], replace=r2))
+        mlines.append(xc.model_line(n2, L2, None, False, c["r"], c["cmd"], t, False, [], replace=r2, repl_R=c["R"]))
     models = fw.run_lines(fw.FUVM, mlines)
     # rewritten argv for replace mode, from the XReplace model
     repl_req, repl_idx = [], {}
